@@ -21,7 +21,7 @@ func init() {
 		QuickBudget: 900,
 		Rule: "all function bodies of <=4 statements over the full alphabet and of 5 over a reduced one (thorough: <=5 over the full alphabet) statements over {print, value, defer, guarded defer true/false, return, guarded return true/false, raise, raise of nil / guarded raise of an int (a raise of something that is not an error ends the body like return), " +
 			"failing call, call of a function with its own defers, deferred expression that raises, defer/return whose guard expression raises, a list chain whose block fails with StopIterErr} plus iterator bodies with yield, each run in 7 contexts (direct call, called from a body with its own defer, three nested levels with several defers, as a method, per element of a list chain whose literal has its own defer, inside a try step, iterator next); " +
-			"stdout markers and outcome compared with a defer model; non-trivial = body contains a defer and an exit or a failing statement; distinct = distinct (body, context)",
+			"stdout markers and outcome compared with a defer model; non-trivial = body contains a defer and an exit or a failing statement; distinct = distinct (body, context); round 8: A second small alphabet (bodies <= 3, thorough 4) holds variables named like keywords and guards built with && / || on zeros that are not the cached 0.",
 		Assumptions: []string{
 			"the value of a body whose last statement is a defer is a don't-care (only the trace is compared there)",
 		},
